@@ -315,9 +315,12 @@ inductive AType where
   | enum (v : Option Int)
   deriving DecidableEq, Repr, Inhabited
 
-/-- Expression trees.  References to virtual fields and `$present(f)` are represented
-    by the referenced expression itself (the code copies its type); `cref` is a
-    `constant_reference` to a virtual field, which differs only for `constant_value`. -/
+/-- Expression trees.  `vref e` is a `field_reference` to a virtual field whose
+    `read_transform` is `e`: the code copies the type of `e`, `ir_util.constant_value` says
+    "unknown", the 64-bit gate and the back end see a leaf (the definition `e` is gated and
+    compiled as a separate top-level expression).  `$present(f)` is represented by the
+    existence condition itself.  `cref` is a `constant_reference` to a virtual field, which
+    differs only for `constant_value`. -/
 inductive Expr where
   | const (v : Int)
   | bconst (b : Bool)
@@ -333,6 +336,7 @@ inductive Expr where
   | upper (e : Expr)
   | lower (e : Expr)
   | cref (e : Expr)
+  | vref (e : Expr)
   deriving Repr, Inhabited
 
 /-- an environment: values of integer leaves, boolean leaves, enum leaves, by id -/
@@ -513,6 +517,7 @@ def cv : Expr → CV
   | .upper e => cvBound (cv e)
   | .lower e => cvBound (cv e)
   | .cref e => atypeConstCV (abs e)
+  | .vref _ => .unknown
 def cvList : List Expr → List CV
   | [] => []
   | e :: es => cv e :: cvList es
@@ -541,6 +546,7 @@ def abs : Expr → Option AType
   | .upper e => match abs e with | some a => absBound true a | none => none
   | .lower e => match abs e with | some a => absBound false a | none => none
   | .cref e => abs e
+  | .vref e => abs e
 def absList : List Expr → Option (List AType)
   | [] => some []
   | e :: es =>
@@ -682,6 +688,25 @@ def annotList : List Expr → Option (List ATree)
     match annot e, annotList es with
     | some a, some l => some (a :: l)
     | _, _ => none
+end
+
+mutual
+/-- every virtual field referenced (transitively) from the expression has a definition that
+    the front end annotates and the 64-bit gate accepts — part of "the module is accepted":
+    each `read_transform` is a top-level expression of its own -/
+def vrefsGated : Expr → Bool
+  | .bin _ l r => vrefsGated l && vrefsGated r
+  | .choice c t f => vrefsGated c && vrefsGated t && vrefsGated f
+  | .max args => vrefsGatedList args
+  | .upper e => vrefsGated e
+  | .lower e => vrefsGated e
+  | .cref e => vrefsGated e
+  | .vref e => vrefsGated e &&
+      (match annot e with | some t => decide (gate t = some []) | none => false)
+  | _ => true
+def vrefsGatedList : List Expr → Bool
+  | [] => true
+  | e :: es => vrefsGated e && vrefsGatedList es
 end
 
 /-- the four C++ types `_cpp_integer_type_for_range` can return -/
